@@ -60,6 +60,7 @@ type Env struct {
 	curState      *State
 	replay        *ReplayInfo
 	asserted      map[string]bool
+	funcByID      map[string]*FuncV
 	partials      []*partialHavoc
 	qvCache       map[string]bool
 	opaque        map[string]bool
@@ -142,13 +143,20 @@ func (e *Env) strID(s string) string {
 	return fmt.Sprint(id)
 }
 
+// funcID gives a statically known function value (closure with its bindings) a numeral, so
+// that it can be stored in the heap and recognised again when loaded.
 func (e *Env) funcID(f *FuncV) string {
-	if id, ok := e.funcIDs[f.Fn]; ok {
-		return fmt.Sprint(id)
+	if e.funcByID == nil {
+		e.funcByID = map[string]*FuncV{}
 	}
-	id := len(e.funcIDs) + 1
-	e.funcIDs[f.Fn] = id
-	return fmt.Sprint(id)
+	for id, g := range e.funcByID {
+		if g == f {
+			return id
+		}
+	}
+	id := fmt.Sprint(len(e.funcByID) + 1000001)
+	e.funcByID[id] = f
+	return id
 }
 
 func (e *Env) trust(what string) { e.trusted[what] = true }
